@@ -244,6 +244,11 @@ func (c *Cursor) Fetch(name parser.Identifier, position int, number int) ([]valu
 	case parser.ABSOLUTE:
 		c.index = number
 	case parser.RELATIVE:
+		if l := c.view.RecordLen() + 1; l < number {
+			number = l
+		} else if number < -l {
+			number = -l
+		}
 		c.index = c.index + number
 	case parser.FIRST:
 		c.index = 0
